@@ -1,4 +1,241 @@
-/-! Model/C11 — executable model (core Lean only; imports only NibabelModel.Basic.* / other Model files). -/
+/-
+  Model/C11 — executable model of the NIfTI header-extension code path (core Lean only).
+
+  Python source modelled (nibabel/nifti1.py of the working tree, after the `fix:` commit
+  "Nifti1Extensions.from_fileobj stops at a zero-size record"):
+
+  * `NiftiExtension.get_sizeondisk`            (460-464)  — NOT hand-written: `Nb.Gen.C11.getSizeondisk`,
+                                                            regenerated from the function's AST on every run
+  * `NiftiExtension.write_to`                  (466-495)  — `serializeExt`
+  * `Nifti1Extensions.get_sizeondisk/write_to` (701-725)  — `totalSize`, `serializeExts`
+  * `Nifti1Extensions.from_fileobj`            (727-795)  — `parseExtsAux` / `parseExts` (and `parseExtsOrig`,
+                                                            the pinned logic without the zero-size stop)
+  * `Nifti1Header.from_fileobj`                (859-878)  — `readExtsAfter`
+  * `Nifti1Header.write_to`                    (880-901)  — `writeSingle` / `writePair`
+  * `Nifti1Header._chk_offset`                 (1907-1930)— `chkOffset` (level 40 finding = error on load;
+                                                            the level-30 "not divisible by 16" finding is only logged)
+  * `AnalyzeImage.to_file_map` (analyze.py 1041-1047): header, then `seek_tell(imgf, offset)`, then the data
+                                                          — `writeAt`
+  * constants of `Nifti1Header` / `Nifti2Header` (nifti1.py 836-838, nifti2.py 132-142) — `Nb.Gen.C11.*`
+
+  Abstractions (see ASSUMPTIONS in harness/props/c11.py):
+  * bytes are `Nat`s (the driver only ever feeds values < 256; no theorem needs the bound for content bytes);
+  * the fixed-size header block is reduced to the value of its `vox_offset` field and the byte order; a file
+    that carries a header is `HFile` = (vox_offset, all bytes AFTER the header block), so the byte at absolute
+    file position `p ≥ hdrSize` is `after[p - hdrSize]`;
+  * voxel data are an opaque, non-empty byte string written at the data offset;
+  * `np.array((rawsize, code), dtype=np.int32)` is a range check (`OverflowError` outside int32);
+  * `esize % 16 ≠ 0` only produces a warning in the real code and has no counterpart here.
+-/
+import NibabelModel.Generated.C11
 namespace Nb.C11
+
+inductive Endian where
+  | le | be
+  deriving Repr, DecidableEq, Inhabited
+
+inductive Err where
+  | headerData   -- HeaderDataError
+  | overflow     -- OverflowError (int32 conversion of esize / ecode)
+  | value        -- ValueError: `bytes(pad)` with a negative pad
+  | short        -- the data region is not completely present in the file
+  | unmodelled   -- outside the modelled domain (data offset inside the header block)
+  | fuel         -- unreachable: recursion budget of the reader exhausted
+  deriving Repr, DecidableEq, Inhabited
+
+/-- one header extension as the property sees it: integer code and raw content bytes -/
+structure Ext where
+  code : Int
+  content : List Nat
+  deriving Repr, DecidableEq, Inhabited
+
+/-! ### int32 codec (NumPy `int32`, little or big endian, two's complement) -/
+
+def inInt32 (v : Int) : Prop := -2147483648 ≤ v ∧ v < 2147483648
+
+instance (v : Int) : Decidable (inInt32 v) :=
+  inferInstanceAs (Decidable (-2147483648 ≤ v ∧ v < 2147483648))
+
+def toU32 (v : Int) : Nat := (v % 4294967296).toNat
+
+def ofU32 (u : Nat) : Int := if u < 2147483648 then (u : Int) else (u : Int) - 4294967296
+
+def encI32 (e : Endian) (v : Int) : List Nat :=
+  let u := toU32 v
+  match e with
+  | .le => [u % 256, u / 256 % 256, u / 65536 % 256, u / 16777216 % 256]
+  | .be => [u / 16777216 % 256, u / 65536 % 256, u / 256 % 256, u % 256]
+
+def decI32 (e : Endian) (b0 b1 b2 b3 : Nat) : Int :=
+  match e with
+  | .le => ofU32 (b0 + 256 * b1 + 65536 * b2 + 16777216 * b3)
+  | .be => ofU32 (b3 + 256 * b2 + 65536 * b1 + 16777216 * b0)
+
+/-! ### writer: `get_sizeondisk`, `NiftiExtension.write_to`, `Nifti1Extensions.write_to` -/
+
+def zeros (k : Nat) : List Nat := List.replicate k 0
+
+/-- `NiftiExtension.get_sizeondisk` for `n` content bytes (generated expression) -/
+def sizeOnDisk (n : Nat) : Int := Nb.Gen.C11.getSizeondisk (n : Int)
+
+/-- `Nifti1Extensions.get_sizeondisk` -/
+def totalSize : List Ext → Int
+  | [] => 0
+  | x :: xs => sizeOnDisk x.content.length + totalSize xs
+
+/-- `NiftiExtension.write_to` (nifti1.py 482-495): esize, ecode as int32 in the header's byte order, the raw
+    content, then `pad = extstart + rawsize - tell()` zero bytes. -/
+def serializeExt (e : Endian) (x : Ext) : Except Err (List Nat) :=
+  let n := x.content.length
+  let rawsize := sizeOnDisk n
+  if ¬ (inInt32 rawsize ∧ inInt32 x.code) then .error .overflow
+  else
+    let pad : Int := rawsize - (8 + (n : Int))
+    if pad < 0 then .error .value
+    else .ok (encI32 e rawsize ++ encI32 e x.code ++ x.content ++ zeros pad.toNat)
+
+/-- `Nifti1Extensions.write_to`: the records one after the other (the first failing record raises) -/
+def serializeStep (e : Endian) (x : Ext) (acc : Except Err (List Nat)) : Except Err (List Nat) :=
+  serializeExt e x >>= fun a => acc.map (a ++ ·)
+
+def serializeExts (e : Endian) (xs : List Ext) : Except Err (List Nat) :=
+  xs.foldr (serializeStep e) (.ok [])
+
+/-! ### reader: `Nifti1Extensions.from_fileobj` -/
+
+/-- `bytes.rstrip(b'\x00')` -/
+def rstripNul (l : List Nat) : List Nat := (l.reverse.dropWhile (· == 0)).reverse
+
+def Ext.strip (x : Ext) : Ext := ⟨x.code, rstripNul x.content⟩
+
+/-- `Nifti1Extensions.from_fileobj(fileobj, size, byteswap)`; `bs` = the bytes from the current file position to
+    the end of the file, `size` as passed (negative = read to the end).  `stopAtZero = true` is the repaired
+    logic (a zero esize ends the list), `false` the pinned logic.  One unit of `fuel` per loop iteration; every
+    iteration that continues consumes at least 8 bytes, so `bs.length + 1` is always enough. -/
+def parseExtsAux (stopAtZero : Bool) (e : Endian) : Nat → List Nat → Int → Except Err (List Ext)
+  | 0, _, _ => .error .fuel
+  | fuel + 1, bs, size =>
+    if size ≥ 16 ∨ size < 0 then                        -- while size >= 16 or size < 0
+      match bs.take 8 with                               -- ext_def = fileobj.read(8)
+      | [] => if size < 0 then .ok [] else .error .headerData
+      | [b0, b1, b2, b3, b4, b5, b6, b7] =>
+          let esize := decI32 e b0 b1 b2 b3
+          let ecode := decI32 e b4 b5 b6 b7
+          if stopAtZero = true ∧ esize = 0 then .ok []
+          else
+            let rest := bs.drop 8
+            let want : Int := esize - 8
+            -- fileobj.read(int(esize - 8)): a negative count reads everything that is left
+            let ev := if want < 0 then rest else rest.take want.toNat
+            if (ev.length : Int) ≠ want then .error .headerData
+            else
+              (parseExtsAux stopAtZero e fuel (rest.drop want.toNat) (size - esize)).map
+                (⟨ecode, rstripNul ev⟩ :: ·)
+      | _ => .error .headerData                          -- 1..7 bytes: 'failed to read extension header'
+    else .ok []
+
+def parseExts (e : Endian) (bs : List Nat) (size : Int) : Except Err (List Ext) :=
+  parseExtsAux true e (bs.length + 1) bs size
+
+/-- the reader of the pinned tree (before the fix) -/
+def parseExtsOrig (e : Endian) (bs : List Nat) (size : Int) : Except Err (List Ext) :=
+  parseExtsAux false e (bs.length + 1) bs size
+
+/-! ### formats -/
+
+structure Fmt where
+  hdrSize : Nat      -- `template_dtype.itemsize`: the fixed header block read / written
+  sizeofHdr : Nat    -- `sizeof_hdr`
+  singleOff : Nat    -- `single_vox_offset`
+  pairOff : Nat      -- `pair_vox_offset`
+  deriving Repr, DecidableEq
+
+def nifti1 : Fmt := ⟨Nb.Gen.C11.nifti1_hdr_itemsize, Nb.Gen.C11.nifti1_sizeof_hdr,
+                     Nb.Gen.C11.nifti1_single_vox_offset, Nb.Gen.C11.nifti1_pair_vox_offset⟩
+def nifti2 : Fmt := ⟨Nb.Gen.C11.nifti2_hdr_itemsize, Nb.Gen.C11.nifti2_sizeof_hdr,
+                     Nb.Gen.C11.nifti2_single_vox_offset, Nb.Gen.C11.nifti2_pair_vox_offset⟩
+
+/-- a file that starts with a header block: value of the `vox_offset` field + every byte after the block -/
+structure HFile where
+  voxOffset : Nat
+  after : List Nat
+  deriving Repr, DecidableEq
+
+structure PairFiles where
+  hdr : HFile
+  img : List Nat
+  deriving Repr, DecidableEq
+
+structure Loaded where
+  exts : List Ext
+  offset : Nat          -- `img.dataobj.offset`
+  data : List Nat       -- the bytes the array proxy reads
+  deriving Repr, DecidableEq
+
+/-- write `data` at position `pos` of a seekable byte store: overwrite what is there, zero-fill a hole past the
+    end (`seek` beyond EOF followed by `write`); writing nothing leaves the store alone. -/
+def writeAt (buf : List Nat) (pos : Nat) (data : List Nat) : List Nat :=
+  if data.isEmpty then buf
+  else buf.take pos ++ zeros (pos - buf.length) ++ data ++ buf.drop (pos + data.length)
+
+/-- bytes following the header block written by `Nifti1Header.write_to` (893-901) -/
+def extBlock (single : Bool) (e : Endian) (exts : List Ext) : Except Err (List Nat) :=
+  if exts.isEmpty then .ok (if single then [0, 0, 0, 0] else [])
+  else (serializeExts e exts).map ([1, 0, 0, 0] ++ ·)
+
+/-- the minimum-offset rule of `Nifti1Header.write_to` (882-890); `userOff = 0` means "not set" exactly as in
+    the header field -/
+def minOffset (fmt : Fmt) (exts : List Ext) : Int := (fmt.singleOff : Int) + totalSize exts
+
+def chooseOffset (fmt : Fmt) (exts : List Ext) (userOff : Nat) : Except Err Int :=
+  if userOff = 0 then .ok (minOffset fmt exts)
+  else if (userOff : Int) < minOffset fmt exts then .error .headerData
+  else .ok (userOff : Int)
+
+/-- single-file save: `Nifti1Header.write_to` (offset rule, header block, extender, extensions) followed by
+    `to_file_map`'s seek to the data offset and the data. -/
+def writeSingle (fmt : Fmt) (e : Endian) (exts : List Ext) (userOff : Nat) (data : List Nat) :
+    Except Err HFile :=
+  chooseOffset fmt exts userOff >>= fun off =>
+  extBlock true e exts >>= fun blk =>
+  if off < (fmt.hdrSize : Int) then .error .unmodelled
+  else .ok ⟨off.toNat, writeAt blk (off.toNat - fmt.hdrSize) data⟩
+
+/-- pair save: header file = block + (extender + extensions, only if there are any); image file = data at the
+    user's offset (no minimum: `is_single` is false). -/
+def writePair (e : Endian) (exts : List Ext) (userOff : Nat) (data : List Nat) : Except Err PairFiles :=
+  (extBlock false e exts).map fun blk => ⟨⟨userOff, blk⟩, writeAt [] userOff data⟩
+
+/-- `_chk_offset` as seen by a loader (error level 40): a single-file magic with a non-zero offset below
+    `single_vox_offset` is refused -/
+def chkOffset (single : Bool) (fmt : Fmt) (off : Nat) : Except Err Unit :=
+  if off = 0 then .ok ()
+  else if single = true ∧ off < fmt.singleOff then .error .headerData
+  else .ok ()
+
+/-- `Nifti1Header.from_fileobj` after the header block: extender, `extsize`, extension list -/
+def readExtsAfter (single : Bool) (fmt : Fmt) (e : Endian) (f : HFile) : Except Err (List Ext) :=
+  match f.after.take 4 with
+  | [s0, _, _, _] =>
+      if s0 = 0 then .ok []
+      else
+        let extsize : Int := if single then (f.voxOffset : Int) - ((fmt.hdrSize : Int) + 4) else -1
+        parseExts e (f.after.drop 4) extsize
+  | _ => .ok []
+
+def readData (bytesFromPos : List Nat) (n : Nat) : Except Err (List Nat) :=
+  let d := bytesFromPos.take n
+  if d.length < n then .error .short else .ok d
+
+def readSingle (fmt : Fmt) (e : Endian) (f : HFile) (n : Nat) : Except Err Loaded :=
+  chkOffset true fmt f.voxOffset >>= fun _ =>
+  readExtsAfter true fmt e f >>= fun exts =>
+  if f.voxOffset < fmt.hdrSize then .error .unmodelled
+  else (readData (f.after.drop (f.voxOffset - fmt.hdrSize)) n).map fun d => ⟨exts, f.voxOffset, d⟩
+
+def readPair (fmt : Fmt) (e : Endian) (p : PairFiles) (n : Nat) : Except Err Loaded :=
+  chkOffset false fmt p.hdr.voxOffset >>= fun _ =>
+  readExtsAfter false fmt e p.hdr >>= fun exts =>
+  (readData (p.img.drop p.hdr.voxOffset) n).map fun d => ⟨exts, p.hdr.voxOffset, d⟩
 
 end Nb.C11
